@@ -332,7 +332,7 @@ PROPERTIES = {
     "C10": {"scans": [_scans_engine], "bounded": [fixed_witnesses("C10", ['C10_falsy_values']), scenario_layer("C10"), probes("C10", ["C10_every_transition_stores_the_target_value", "C10_falsy_machine_instance"])],
             "search": scenario_search("C10")},
     "C11": {"bounded": [fixed_witnesses("C11", ['C11_nonrtc_resume']), scenario_layer("C11"), probes("C11", ["C11_mixin_resumes_stored_state"])], "search": scenario_search("C11")},
-    "C13": {"bounded": [fixed_witnesses("C13", ['C13_send_attribute']), api_layer("C13"), render_layer(quick_s=8, thorough_s=60)], "assumptions": [
+    "C13": {"bounded": [fixed_witnesses("C13", ['C13_send_attribute']), probes("C13", ["C13_undeclared_name_reads_no_attribute"]), api_layer("C13"), render_layer(quick_s=8, thorough_s=60)], "assumptions": [
         "TransitionList.unique_events, StateMachine.events / allowed_events and bind_events_to are NOT under contract (the "
         "ordered-dedup invariant did not discharge in the time budget): covered by the bounded API layer only; send, "
         "Event.__call__ and Event.__get__ are proved"]},
